@@ -433,6 +433,15 @@ def g7(F, rep):
         rep.add("G7", "plaintext-carried:" + v["name"], bool(W) and not leaks, b.where(entry),
                 "%d write(s) of %s.plain_text; results produced without passing one: %s" % (len(W), v["name"], [(b.where(bb), w) for bb, w in leaks][:3]))
     rep.floor("G7", "plaintext-writes", n, 2)
+    # ... and what the scanner found is what gets written: expand_zlib_chunks hands every recorded chunk to write_chunk_block
+    # as it is (no chunk is rebuilt or downgraded on the way)
+    e = F.body(PC + "expand_zlib_chunks")
+    wc = [(bb, t) for bb, t in e.calls() if strip_generics(callee_def(t)).endswith("::write_chunk_block")]
+    ds = [flow.describe(e, t["args"][0]) for bb, t in wc]
+    rebuilt = [e.where(bb) for bb in sorted(e.normal_blocks()) for s in e.stmts(bb)
+               if s.get("k") == "assign" and (s.get("r") or {}).get("k") == "agg" and (s.get("r") or {}).get("adt") == SD + "BlockChunk"]
+    rep.add("G7", "recorded-chunks-written-unchanged", len(wc) == 1 and re.match(r"^next\(into_iter\(.*\)\) as Some\.0$", ds[0]) is not None and not rebuilt,
+            "%s:%s" % (e.file, e.line), "write_chunk_block(%s, ..); BlockChunk values constructed in expand_zlib_chunks: %s" % ([d[:120] for d in ds], rebuilt))
 
 
 def run(ctx, rep):
